@@ -256,7 +256,7 @@ PROPS = {
     },
     "C11": {
         "level": "proof",
-        "lean_targets": ["LP.Props.C11", "LP.Props.C11Roots"],
+        "lean_targets": ["LP.Props.C11", "LP.Props.C11Roots", "LP.Props.C12Exact"],
         "harnesses": [{"name": "h_eval", "quick": 150, "thorough": 4000, "env": {"LPV_EVAL_MODE": "roots"}}],
         "select": lambda t: t[1] == "ev" and t[2] == "roots",
         "nontrivial": lambda t, r: True,
@@ -270,13 +270,13 @@ PROPS = {
     },
     "C12": {
         "level": "proof",
-        "lean_targets": ["LP.Props.C12"],
+        "lean_targets": ["LP.Props.C12", "LP.Props.C12Exact"],
         "harnesses": [{"name": "h_eval", "quick": 250, "thorough": 4000, "env": {"LPV_EVAL_MODE": "fs"}}],
         "select": lambda t: t[1] == "ev" and t[2] in ("fs", "rfs"),
         "nontrivial": lambda t, r: True,
         "rule": "the C11 polynomial / assignment families with all six sign conditions, both polarities, and root constraints with root "
                 "indices 0..deg+1. Every line is non-trivial.",
-        "trusted_base": ["as C11"],
+        "trusted_base": ["driver parsing and the interval-by-interval comparison of the library's set with the reference set (end points by the proved Alg.cmp); as C11 the eliminant-free fallback is outside C12_feasible_exact"],
         "assumptions": ["as C11"],
     },
     "C16": {
